@@ -20,7 +20,7 @@ func TestMain(m *testing.M) {
 	ev.SetMeta(ev.Meta{
 		Property: "C05", Level: "fault_enumeration",
 		Rule: "rapid draws multi-round histories as in C04 (including delete-then-recreate of identical content within a round and across rounds, long-lived untouched subtrees) with PruneBelowVersion(v), v drawn from 1..newest+1, after arbitrary rounds. Oracle: (1) the dead set a round reports is disjoint from the nodes reachable (harness walker over raw store bytes) from that round's root and from every later round's root; (2) after each prune every saved root with version >= v is fully readable from the store alone and equals its model; (3) keys removed by the prune are a subset of the union of dead sets of rounds below v. " +
-			"Crash points are ENUMERATED: for every prefix of the prune's atomic write stream the prune is re-run from a copy of the pre-prune store with later writes refused, then restart, (2), prune again to completion, (2) and (3). A dedicated large history crosses the 1000-node delete batch limit. " +
+			"Crash points are ENUMERATED: for every prefix of the prune's atomic write stream the prune is re-run from a copy of the pre-prune store with later writes refused, then restart, (2), prune again to completion, (2) and (3). A dedicated large history crosses the 1000-node delete batch limit, and a long one has 262..330 rounds (round numbers beyond one byte) pruned at a low version and at a version above 256. " +
 			"One evaluation = one history or one (history, prune, prefix) crash run. Non-trivial = a prune that deletes >=1 node while >=2 retained roots exist, in a history with identical re-creation of deleted content; distinct = distinct (history, prune, prefix).",
 		Assumptions: []string{"the persistent store is the in-memory grocksdb stand-in (atomic ordered writes, ordered iteration of the dead-node column family); compaction and SetSync(false) durability are not modelled"},
 	})
@@ -220,6 +220,46 @@ func TestLargePrune(t *testing.T) {
 		}
 		ev.Case(fmt.Sprintf("large/%d/%d", nkeys, s.Rounds[3].PruneBelow), true, cl)
 		ev.Sample(map[string]any{"large_history_keys": nkeys, "nodes_pruned": deleted, "crash_runs": crashes, "prune_below": s.Rounds[3].PruneBelow})
+	})
+}
+
+// A history of more than 256 rounds (the round number no longer fits one byte of the dead-node record key), pruned
+// at a low version and then at a version above 256.
+func TestLongHistory(t *testing.T) {
+	ev.Rapid(t, 2, 10)
+	rapid.Check(t, func(rt *rapid.T) {
+		nrounds := gen.Uniform(rt, 262, 330, "nrounds")
+		keys := []string{"0a", "0a11", "0b22", "1c", "1c3344", "2d"}
+		s := &rounds.Script{}
+		model := map[string][]byte{}
+		low := int64(gen.Uniform(rt, 2, 40, "lowprune"))
+		high := int64(gen.Uniform(rt, 257, nrounds, "highprune"))
+		for r := 1; r <= nrounds; r++ {
+			var ops []mptkit.Op
+			for i := gen.Uniform(rt, 1, 2, "nops"); i > 0; i-- {
+				k := gen.Pick(rt, keys, "k")
+				if _, live := model[k]; live && gen.Chance(rt, 30, "del") {
+					ops = append(ops, mptkit.Op{Kind: "del", Path: k})
+					delete(model, k)
+				} else {
+					v := []byte{byte(r), byte(r >> 8), byte(gen.Uniform(rt, 0, 3, "v"))}
+					ops = append(ops, mptkit.Op{Kind: "ins", Path: k, Val: fmt.Sprintf("%x", v)})
+					model[k] = v
+				}
+			}
+			rd := rounds.Round{Version: int64(r), Txns: []rounds.Txn{{Ops: ops, Merge: true}}}
+			if r == nrounds-1 {
+				rd.PruneBelow = low
+			}
+			if r == nrounds {
+				rd.PruneBelow = high
+			}
+			s.Rounds = append(s.Rounds, rd)
+			s.Models = append(s.Models, mptkit.CopyContent(model))
+		}
+		deleted, _, crashes, _ := runScript(rt, s, fmt.Sprintf("long(%d rounds, prune below %d then %d)", nrounds, low, high))
+		ev.Case(fmt.Sprintf("long/%d/%d/%d", nrounds, low, high), true, "history>256-rounds")
+		ev.Sample(map[string]any{"rounds": nrounds, "prune_below": []int64{low, high}, "nodes_pruned": deleted, "crash_runs": crashes})
 	})
 }
 
